@@ -229,6 +229,10 @@ fn show_answer(class: usize, a: &Answer) -> String {
     format!("h{}:{}:E{}", class, v, show_errs(&a.1))
 }
 
+fn canon_err_short(e: &LocalizationError) -> String {
+    format!("{:?}", e).chars().take(60).collect()
+}
+
 fn ask(rc: &Rcb, key: &str) -> Answer {
     let mut errors = vec![];
     let r = block_on(rc.format_value(key, None, &mut errors)).map(|c| c.into_owned());
@@ -259,6 +263,8 @@ fn run(payload: &str) -> String {
 
     let mut seen: Vec<Rcb> = vec![];
     let mut held: Vec<Rcb> = vec![];
+    // the mode each held handle was created in (a set keeps answering from the state it was created in)
+    let mut held_sync: Vec<bool> = vec![];
     let mut inflight: std::collections::VecDeque<InFlight> = Default::default();
     let mut outs: Vec<String> = vec![];
     for op in &segs[1..] {
@@ -320,12 +326,27 @@ fn run(payload: &str) -> String {
                 let rc = loc.bundles().clone();
                 let c = class_of(&mut seen, &rc);
                 held.push(rc);
+                held_sync.push(loc.is_sync());
                 Some(format!("h{}:{}", c, if loc.is_sync() { "s" } else { "a" }))
             }
             ["ask", n, k] => n.parse::<usize>().ok().map(|n| match held.get(n) {
                 Some(rc) => {
                     let c = class_of(&mut seen, rc);
-                    show_answer(c, &ask(rc, k))
+                    let a = ask(rc, k);
+                    // the SYNC request API of the held set: a set created in sync mode answers it (with what the async API
+                    // gives), a set created in async mode refuses it - whatever mode the localization is in by now
+                    let mut e2 = vec![];
+                    let s2 = rc.format_value_sync(k, None, &mut e2).map(|o| o.map(|c| c.into_owned()));
+                    let ok = match (held_sync[n], &s2) {
+                        (true, Ok(r)) => *r == a.0 && show_errs(&e2) == show_errs(&a.1),
+                        (false, Err(_)) => e2.is_empty(),
+                        _ => false,
+                    };
+                    if ok {
+                        show_answer(c, &a)
+                    } else {
+                        format!("{} SYNC-API-DISAGREE(handle created {}: {:?})", show_answer(c, &a), if held_sync[n] { "sync" } else { "async" }, s2.map_err(|e| canon_err_short(&e))).replace(';', ",")
+                    }
                 }
                 None => "bad-op".to_string(),
             }),
